@@ -55,6 +55,8 @@ EXTRA = [
     "(when (t :a p0) (t :b 1) (t :c 2))", "(cond (t :a p0) (t :b 1) (t :c p1) (t :d 2) :else (t :e 3))",
     "(operator/contains (t :coll [1 2]) (t :item p0))", "(identical? (t :a p0) (t :b 1))", "(= (t :a p0) (t :b p1) (t :c p2))",
     "(throw (t :exc (python/KeyError (t :msg \"m\"))))",
+    # set! as an operand: its value expression runs once and is the value of the form
+    "(let* [o (python/type \"O\" (python/tuple) {})] (vector (set! (.-field (t :target o)) (t :val p0)) (.-field o)))",
 ]
 
 
@@ -81,10 +83,20 @@ def bodies():
     return out
 
 
+STATEMENT_KINDS = ("if", "let", "do", "try", "loop")
+HOISTING_EXTRAS = ("extra04",)     # a compound / set! operand after an effectful sibling
+
+
 def hoisted_sibling(spec):
-    """the recorded finding: a compound argument's statements are hoisted before an earlier plain sibling"""
+    """where the recorded finding can apply: an operand that compiles to *statements* (a compound form, set!) stands after an
+    operand (or a function position) that has an effect of its own. Anything else that merely reorders effects is NOT the finding."""
     n = spec.name
-    return "/pos1/" in n or "/pos2/" in n
+    parts = n.split("/")
+    if parts[0] in HOISTING_EXTRAS:
+        return True
+    if len(parts) >= 3 and parts[2] in STATEMENT_KINDS:
+        return parts[1] in ("pos1", "pos2") or (parts[0] == "call-fn-position" and parts[1] == "pos0")
+    return False
 
 
 def run(rep, tier, seed):
@@ -126,7 +138,7 @@ def run(rep, tier, seed):
         if "DIAGJSON=" in line:
             try:
                 d = _json.loads(line.split("DIAGJSON=", 1)[1])
-                if d.get("same_result") and d.get("trace_is_permutation"):
+                if d.get("same_result") and d.get("trace_is_permutation") and hoisted_sibling(spec):
                     # every marker runs exactly once and the value is right; only the order differs:
                     # statements of a compound sub-form were hoisted before an earlier sibling's evaluation
                     kind = "compound-subform-effects-hoisted"
